@@ -12,7 +12,7 @@ use std::collections::BTreeMap;
 pub static META27: Meta = Meta {
     id: "C27",
     level: "exploration",
-    rule: "generated programs of 1-6 lines mixing queries, inserts, bulk inserts, deletes, conditional deletes, updates, persistent/session rules, session facts, schema declarations and meta commands (.kg use/create/drop, .rule drop/clear/remove, .rel drop, .clear prefix, .compact, .kg acl grant) with comment lines (// and %), inline comments, blank lines, continuation lines and CRLF, submitted by 12 non-admin identities = global {viewer,editor} x per-KG roles on k1/k2 from {none,viewer,editor,owner}; oracle: for every KG on which the identity's role is viewer or absent (and which the program did not create itself) the dump of facts/rules/schemas is identical before and after, and no such KG disappears; distinct = program text x identity; non-trivial = program contains a write statement aimed at a KG the identity may not write",
+    rule: "generated programs of 1-6 lines mixing queries, inserts, bulk inserts, deletes, conditional deletes, updates, persistent/session rules, session facts, schema declarations and meta commands (.kg use/create/drop, .rule drop/clear/remove, .rel drop, .clear prefix, .compact, .kg acl grant) with comment lines (// and %), inline comments, blank lines, continuation lines, indented statements (after comments, at the start, after other statements) and CRLF, submitted by 12 non-admin identities = global {viewer,editor} x per-KG roles on k1/k2 from {none,viewer,editor,owner}; oracle: for every KG on which the identity's role is viewer or absent (and which the program did not create itself) the dump of facts/rules/schemas is identical before and after, and no such KG disappears; distinct = program text x identity; non-trivial = program contains a write statement aimed at a KG the identity may not write",
     assumptions: &["the per-KG role is the authority for data access (the model stated in src/auth.rs); admins are out of scope", "a KG created by the program itself belongs to its creator"],
     floor: 100,
     watchdog: (0, 0),
@@ -20,7 +20,7 @@ pub static META27: Meta = Meta {
 pub static META29: Meta = Meta {
     id: "C29",
     level: "exploration",
-    rule: "generated programs naming the internal graph `_internal` in every position: as the request's target KG; `.kg use/create/drop _internal` as first, middle or last line of multi-line programs, after comment lines, with trailing spaces; followed by reads of users/api_keys/kg_acls and writes into them; and session re-binding (`.kg use _internal` on a session, then a second request on that session); submitted by the 12 non-admin identities; oracle: the dump of `_internal` is unchanged, no returned row contains a canary string planted in `_internal` or a stored password hash, `switched_kg` is never `_internal`, and the session is not bound to `_internal` afterwards; distinct = program x identity; non-trivial = every case",
+    rule: "generated programs naming the internal graph `_internal` in every position: as the request's target KG; `.kg use/create/drop _internal` as first, middle or last line of multi-line programs, after comment lines, indented, with trailing spaces; followed by reads of users/api_keys/kg_acls and writes into them; and session re-binding (`.kg use _internal` on a session, then a second request on that session); submitted by the 12 non-admin identities; oracle: the dump of `_internal` is unchanged, no returned row contains a canary string planted in `_internal` or a stored password hash, `switched_kg` is never `_internal`, and the session is not bound to `_internal` afterwards; distinct = program x identity; non-trivial = every case",
     assumptions: &["canaries: a relation planted in _internal plus every password hash stored in users"],
     floor: 100,
     watchdog: (0, 0),
@@ -142,6 +142,14 @@ fn gen_line(r: &mut crate::rng::Rng, uniq: &mut i64, me: &str) -> String {
         ".kg use default".into(),
         format!(".kg create kx{u}"),
         ".kg drop k2".into(),
+        ".kg create k2".into(),
+        ".kg create default".into(),
+        ".kg create k1".into(),
+        ".kg use nosuchkg".into(),
+        format!(".user create\nevil{u} pw-123456789 admin"),
+        format!(".user\ncreate evil{u} pw-123456789 admin"),
+        ".rule drop\np".into(),
+        ".rel\ndrop r".into(),
         format!(".kg acl grant k1 {me} owner"),
         format!(".user create evil{u} pw-123456789 admin"),
         format!("+nr{u}(X) <-\n  r(X, _)"),
@@ -158,7 +166,17 @@ fn gen_program(r: &mut crate::rng::Rng, uniq: &mut i64, me: &str) -> String {
             0 => lines.push("// a comment line".into()),
             1 => lines.push("% another comment".into()),
             2 => lines.push(String::new()),
-            _ => lines.push(gen_line(r, uniq, me)),
+            _ => {
+                // some statements are indented (a continuation line for the pre-processor when something
+                // precedes them, a statement of its own after a comment line or at the start)
+                let l = gen_line(r, uniq, me);
+                let after_comment = lines.last().is_some_and(|p: &String| p.starts_with("//") || p.starts_with('%'));
+                lines.push(match r.below(if after_comment { 4 } else { 10 }) {
+                    0 => format!("  {l}"),
+                    1 => format!("\t{l}"),
+                    _ => l,
+                });
+            }
         }
     }
     if lines.iter().all(|l| l.is_empty() || l.starts_with("//") || l.starts_with('%')) {
@@ -183,7 +201,7 @@ pub fn run27(ctx: &mut Ctx) {
             return;
         }
     };
-    let total = ctx.sz(640, 12_800);
+    let total = ctx.sz(2400, 48_000);
     let mut uniq: i64 = 1000 + (ctx.shard.0 as i64) * 1_000_000;
     for k in ctx.cases(total) {
         let mut r = ctx.rng(k);
@@ -269,7 +287,7 @@ pub fn run29(ctx: &mut Ctx) {
             return;
         }
     };
-    let total = ctx.sz(480, 9600);
+    let total = ctx.sz(1200, 24_000);
     for k in ctx.cases(total) {
         let mut r = ctx.rng(k);
         restore(&w);
@@ -307,10 +325,11 @@ pub fn run29(ctx: &mut Ctx) {
                     lines.push(r.pick(&filler).to_string());
                 }
             }
-            lines.push(kgcmd.clone());
+            lines.push(if r.chance(1, 4) { format!("  {kgcmd}") } else { kgcmd.clone() });
         }
         for _ in 0..(1 + r.below(2)) {
-            lines.push(r.pick(&payload).clone());
+            let pl = r.pick(&payload).clone();
+            lines.push(if r.chance(1, 6) { format!("  {pl}") } else { pl });
         }
         let program = lines.join("\n");
         let Ok(before) = dump_kg(&w.h.h.get_storage(), "_internal") else { continue };
